@@ -19,7 +19,7 @@
 (* dv names the known-defect alternatives (see DESIGN 2.4) an outcome      *)
 (* relies on; conforming outcomes have dv = {}.                            *)
 (***************************************************************************)
-EXTENDS Resp
+EXTENDS Resp, SequencesExt
 
 CONSTANT Deviations      \* set of enabled deviation names (strings)
 
